@@ -37,3 +37,9 @@
                 (vpushCh Ch (mk_S_db_Change e cv (ite (not (= (S_db_BuildArtifact__Certificate (select H_S_db_BuildArtifact_0 (dbArt S e))) 0)) #x02 #x01)))
                 (store U (S_config_CertificateContent__Alias cv) true)))
          (plan S strat T2 n2 (+ i 1) Ch U))))))))
+; ---- BulkUpdate (C10): artifact paths of the first i changes; number of changes that generate
+(define-fun-rec inArtPaths ((S DbSt) (v (View S_db_Change)) (i Int) (p String)) Bool
+  (and (< 0 i) (<= i (vlen v)) (or (= p (dbArtPath S (S_db_Change__Alias (select (varr v) (+ (voff v) (- i 1)))))) (inArtPaths S v (- i 1) p))))
+(define-fun-rec countGen ((v (View S_db_Change)) (i Int)) Int
+  (ite (or (<= i 0) (> i (vlen v))) 0
+     (+ (countGen v (- i 1)) (ite (= (bvand (S_db_Change__Change (select (varr v) (+ (voff v) (- i 1)))) #x03) #x00) 0 1))))
